@@ -120,13 +120,8 @@ namespace rkcommon {
     template <typename KEY, typename VALUE>
     inline const VALUE &FlatMap<KEY, VALUE>::operator[](const KEY &key) const
     {
-      auto itr = lookup(key);
-      if (itr == values.end()) {
-        values.push_back(std::make_pair(key, VALUE()));
-        return values.back().second;
-      } else {
-        return itr->second;
-      }
+      // a const map cannot insert: behave like at()
+      return at(key);
     }
 
     template <typename KEY, typename VALUE>
